@@ -5,6 +5,7 @@ import (
 	"go/token"
 	"go/types"
 	"sort"
+	"strings"
 
 	"golang.org/x/tools/go/callgraph"
 	"golang.org/x/tools/go/ssa"
@@ -410,6 +411,55 @@ func checkC09(c *Ctx) {
 	checkStaleTriple(c, "C09.stale-cursor")
 	checkIsearchLiteralFallback(c, "C09.invalid-regex-searched")
 	checkEndOfHistory(c, "C09.end-of-history-past-newest")
+	checkC09LineStateKey(c)
+}
+
+// ---- C09.line-state-key: the saved states of a history line are kept under a key that survives the growth of the history
+func checkC09LineStateKey(c *Ctx) {
+	p, r := c.P, c.R
+	r.Rule("C09.line-state-key", "K3", "getLineHistory keeps the saved states of a history line under a key computed from the length of the source (its absolute index), or -1 for the line being typed: the walk position alone counts from the newest entry, so once a line is accepted the states kept under it belong to another entry, and Walk shows them instead of the stored text", 1)
+	LH := p.Func("(*history.Sources).getLineHistory")
+	if LH == nil {
+		r.Unk("C09.line-state-key", "(*history.Sources).getLineHistory", "-", "anchor not found")
+		return
+	}
+	r.Fn(fnName(LH))
+	n := 0
+	judge := func(in ssa.Instruction, key ssa.Value) {
+		n++
+		bad := ""
+		for _, v := range mayValues(key) {
+			if k, ok := constInt(v); ok {
+				if k != -1 {
+					bad = fmt.Sprintf("constant key %d", k)
+				}
+				continue
+			}
+			dep := dependsOn(v, func(x ssa.Value) bool {
+				cl, ok := x.(*ssa.Call)
+				return ok && isInvoke(cl, "history.Source", "Len")
+			})
+			if !dep {
+				bad = "a key that does not depend on the length of the source (" + p.descValue(v) + ")"
+			}
+		}
+		r.Check(bad == "", "C09.line-state-key", siteKey(LH, "state-map-key", n-1), p.IPos(in), "-1 or an index computed from Source.Len()", "the states of a history line are kept under "+bad+": after the history grows the key designates another entry, and going up shows a line edited earlier in place of the stored entry")
+	}
+	eachInstr(LH, func(in ssa.Instruction) {
+		switch x := in.(type) {
+		case *ssa.Lookup:
+			if strings.HasSuffix(typeStr(x.X.Type()), "history.lineHistory") && strings.HasPrefix(typeStr(x.X.Type()), "map[int]") {
+				judge(in, x.Index)
+			}
+		case *ssa.MapUpdate:
+			if strings.HasSuffix(typeStr(x.Map.Type()), "history.lineHistory") && strings.HasPrefix(typeStr(x.Map.Type()), "map[int]") {
+				judge(in, x.Key)
+			}
+		}
+	})
+	if n == 0 {
+		r.Unk("C09.line-state-key", fnName(LH)+":state-map", p.Pos(LH.Pos()), "no access to the map of saved line states found: anchor changed")
+	}
 }
 
 func isLenCall(v ssa.Value) bool {
